@@ -69,6 +69,11 @@ class Plan:
         """-> extra coverage computed over all real traces (e.g. Impl-level trace validation)."""
         return {}
 
+    def extra(self, tier, sd):
+        """-> (violations, coverage): clauses of this property decided with another trace module.
+        violations: list of {"clause", "step", "meta", "input", "failing_event"}."""
+        return [], {}
+
     def controls(self, base_traces):
         """-> list of traces with meta.control = {clause, step} (step may be 0 = any)."""
         return []
@@ -216,6 +221,17 @@ def run(plan, tier, replay_path=None):
             say("VIOLATION property=%s replay=%s" % (pid, path))
             say("  clause %s false at step %d: %s" % (clause, step, json.dumps(payload["failing_event"], default=str)[:300]))
         rc = EXIT_VIOLATION
+    if not replay_path:
+        xv, xcov = plan.extra(tier, sd)
+        cov.update(xcov)
+        for v in xv:
+            payload = dict(v, property=pid)
+            path = save_violation(pid, "%s_%d" % (v["clause"], len(vpaths)), payload)
+            vpaths.append(path)
+            if len(vpaths) <= 5:
+                say("VIOLATION property=%s replay=%s" % (pid, path))
+                say("  clause %s false at step %s: %s" % (v["clause"], v.get("step"), json.dumps(v.get("failing_event"), default=str)[:300]))
+            rc = EXIT_VIOLATION
     cov.update({
         "traces_validated_against_impl": nreal,
         "recorded_events": sum(len(t.get("ev", [])) for t in traces),
